@@ -1,7 +1,7 @@
 // C15 harness: drives the real cursor.Provider (NewProvider, wired with a counting ItFactory over
 // fake partitions) through step histories: GetOrCreate split at the only point where another
 // request can interleave (the unlocked newCursor, where the factory's GetJournals is entered),
-// Release, sweepByTime / sweepBySize (through pkg/cursor/export_c15_verif.go), clock advances.
+// Release, sweepByTime / sweepBySize (through pkg/cursor/export_c15_verif.go), clock advances, Shutdown.
 // Every step's result and a snapshot (cached ids, per-cursor close count, net acquisitions per
 // partition) are recorded as a Gallina term for model/Provider.v; the oracle evaluates the
 // property itself on the harness's own bookkeeping, independent of the model.
@@ -69,6 +69,7 @@ type factory struct {
 	minus bool    // some count went negative
 	sets  []tag.Set
 	errTs tag.Set
+	all   []*fakeIt // every iterator handed out
 }
 
 func newFactory() *factory {
@@ -119,6 +120,9 @@ func (f *factory) GetJournal(ctx context.Context, src string) (tag.Set, journal.
 func (f *factory) Itearator(j journal.Journal, tmRange *model.TimeRange) journal.Iterator {
 	fj := j.(*fakeJrnl)
 	it := &fakeIt{name: fj.name}
+	f.mu.Lock()
+	f.all = append(f.all, it)
+	f.mu.Unlock()
 	if fj.ri != nil {
 		fj.ri.mu.Lock()
 		fj.ri.iters = append(fj.ri.iters, it)
@@ -138,6 +142,17 @@ func (f *factory) Release(jn string) {
 			}
 		}
 	}
+}
+
+// closeCounts: how often each iterator ever handed out was closed
+func (f *factory) closeCounts() []int {
+	f.mu.Lock()
+	defer f.mu.Unlock()
+	r := make([]int, len(f.all))
+	for i, it := range f.all {
+		r[i] = it.closeCount()
+	}
+	return r
 }
 
 func (f *factory) counts() ([]int64, bool) {
@@ -262,6 +277,7 @@ type Replay struct {
 	Steps  []Step `json:"steps,omitempty"`
 	Expect string `json:"expect,omitempty"` // corpus witnesses: the oracle class that must show up
 	Seed   uint64 `json:"seed,omitempty"`
+	Shared bool   `json:"shared,omitempty"` // stress: the workers share their ids (concurrent requests for one id)
 }
 
 var badPos = []string{"garbage", "a=zz", "a=1=2", "a=0000"}
@@ -419,20 +435,10 @@ func newExec(rp *Replay) *exec {
 	return x
 }
 
-// symptoms of two requests using one cursor at a time (reported under one class when the history broke the discipline)
-var interleaved = map[string]bool{"shared-use": true, "busy-not-refused": true, "closed-while-in-use": true,
-	"handed-out-closed": true, "release-position": true, "release-id": true}
-
+// fail records the first oracle violation of the case. Histories in which requests share an id while in flight
+// (tag "undisciplined") are held to the same classes as every other history: a concurrent request for an id is
+// refused or served by a cursor of its own, never interleaved, and nothing panics or leaks.
 func (x *exec) fail(class, detail string) {
-	if x.undisc {
-		// the history left the client discipline (an id requested again while a request with it is in
-		// flight and its cursor is not in the cache marked busy): recorded finding, classed by symptom
-		if interleaved[class] {
-			detail = class + ": " + detail
-			class = "interleaved-use"
-		}
-		class = "sameid-concurrent:" + class
-	}
 	if x.viol == nil {
 		x.viol = &Violation{Class: class, Detail: detail}
 	}
@@ -563,12 +569,26 @@ func (x *exec) Exec(st Step) error {
 		cursor.VC15Advance(x.p, time.Duration(st.N)*unit)
 		x.emit(GApp("OTick", GZ(int64(st.N))), "RDone", true)
 	case "shutdown":
-		if !x.shutdown {
-			x.shutdown = true
-			func() {
-				defer func() { recover() }()
-				x.p.(interface{ Shutdown() }).Shutdown()
-			}()
+		if x.shutdown {
+			// Shutdown() closes a channel: it can be called once; a repeated step is not a step
+			return nil
+		}
+		x.shutdown = true
+		var pv interface{}
+		nBefore := len(cursor.VC15CachedIds(x.p))
+		func() {
+			defer func() { pv = recover() }()
+			x.p.(interface{ Shutdown() }).Shutdown()
+		}()
+		if pv != nil {
+			x.coqOps = append(x.coqOps, "OShutdown")
+			x.panicked, x.stopped = true, true
+			x.fail("panic:shutdown", fmt.Sprint(pv))
+			return nil
+		}
+		if nBefore > 0 {
+			x.tags["shutdown-nonempty"] = true
+			x.nontriv = true
 		}
 		x.emit("OShutdown", "RDone", true)
 	default:
@@ -591,8 +611,8 @@ func (x *exec) lookup(st Step) error {
 	}
 	ids := cursor.VC15CachedIds(x.p)
 	wasCached := st.Id != 0 && cachedHas(ids, st.Id)
-	// discipline (the hypothesis of the _partial theorems): an id already in flight may only be
-	// requested while its cursor sits in the cache marked busy (the request is then refused)
+	// client discipline (model: `disciplined`; it only tags the input distribution): an id already in flight is
+	// requested again only while its cursor sits in the cache marked busy (the request is then refused)
 	expectRefused := false
 	if st.Id != 0 {
 		for r2, b := range x.actors {
@@ -705,6 +725,8 @@ func (x *exec) create(st Step) error {
 		x.emit(op, "RNone", true)
 		return nil
 	}
+	// is the id of this request in the cache right now (put there by another request since this one's lookup missed)?
+	cachedNow := a.effKnown && cachedHas(cursor.VC15CachedIds(x.p), a.effId)
 	close(a.req.gate)
 	tm := time.NewTimer(deadline)
 	defer tm.Stop()
@@ -721,6 +743,30 @@ func (x *exec) create(st Step) error {
 		x.panicked, x.stopped = true, true
 		x.fail("panic:get", fmt.Sprint(r.panicked))
 		return nil
+	case r.err != nil && strings.Contains(r.err.Error(), "concurrent request"):
+		// refused in the insert region: the cursor was built (newCursor) and closed again
+		a.req.mu.Lock()
+		its := append([]*fakeIt{}, a.req.iters...)
+		a.req.mu.Unlock()
+		c := &curRec{cid: len(x.curs), id: a.effId, iters: its, holder: -1, handed: 0}
+		x.curs = append(x.curs, c)
+		a.st, a.crec, a.cur = stIdle, nil, nil
+		x.tags["insert-refused"] = true
+		x.nontriv = true
+		if !a.effKnown || !ls.Cache {
+			x.fail("refused-unknown-id", fmt.Sprintf("request %d (id %d, cache=%v) was refused after newCursor: %v", st.R, ls.Id, ls.Cache, r.err))
+		} else if !cachedNow {
+			x.fail("refused-unknown-id", fmt.Sprintf("id %d is not cached but the request was refused after newCursor", a.effId))
+		}
+		if len(its) != len(queries[ls.Q].Parts) {
+			x.fail("wrong-partitions", fmt.Sprintf("cursor for %q has %d iterators", queries[ls.Q].Text, len(its)))
+		}
+		if c.closes() != 1 {
+			x.fail("leak-at-refusal", fmt.Sprintf("the cursor built for the refused request %d (id %d) was closed %d times", st.R, a.effId, c.closes()))
+		}
+		a.effKnown = false
+		x.emit(op, GApp("RNew", GNat(c.cid)), false)
+		x.emit(GApp("OInsert", GNat(st.R)), "RInsRefused", true)
 	case r.err != nil:
 		a.st = stIdle
 		x.emit(op, "RNewErr", true)
@@ -760,6 +806,9 @@ func (x *exec) create(st Step) error {
 		}
 		if len(its) != len(queries[ls.Q].Parts) {
 			x.fail("wrong-partitions", fmt.Sprintf("cursor for %q has %d iterators", queries[ls.Q].Text, len(its)))
+		}
+		if ls.Cache && cachedNow {
+			x.fail("cache-entry-overwritten", fmt.Sprintf("id %d was cached by another request when request %d put its cursor #%d into the cache under it", c.id, st.R, c.cid))
 		}
 		if ls.Cache {
 			x.emit(op, GApp("RNew", GNat(c.cid)), false)
@@ -832,6 +881,35 @@ func (x *exec) drain() error {
 		rs = append(rs, r)
 	}
 	sort.Ints(rs)
+	if x.rp.Kind == "script" && len(x.rp.Steps)%3 == 0 {
+		// every third script ends with a shutdown of the live cache instead: the requests parked in newCursor
+		// finish their GetOrCreate (one that inserts after Shutdown stays cached: outside the property), Shutdown,
+		// then every request still in flight releases; nothing may be left, without any sweep
+		for _, r := range rs {
+			if a := x.actors[r]; a.st == stGate || a.st == stEarly {
+				if err := x.Exec(Step{Kind: "create", R: r}); err != nil {
+					return err
+				}
+			}
+		}
+		if x.stopped {
+			return nil
+		}
+		if err := x.Exec(Step{Kind: "shutdown"}); err != nil {
+			return err
+		}
+		for _, r := range rs {
+			if a := x.actors[r]; a.st == stHold || a.st == stHoldEmpty {
+				if err := x.Exec(Step{Kind: "release", R: r}); err != nil {
+					return err
+				}
+			}
+		}
+		if !x.stopped {
+			x.leakCheck("shutdown-cached-not-closed")
+		}
+		return nil
+	}
 	for _, r := range rs {
 		a := x.actors[r]
 		if a.st == stGate || a.st == stEarly {
@@ -1051,38 +1129,43 @@ var head = PosSpec{Kind: "head"}
 
 func corpus() []Replay {
 	return []Replay{
-		// C15_once_refuted / C15_no_panic_refuted, witness 1: two requests name the same uncached id, both
-		// miss before either inserts; the second insert overwrites the map entry; the first's Release marks
-		// the second's holder idle (the first cursor is never closed); the second's Release panics
-		{Kind: "script", Name: "same-uncached-id-race", Max: 10, Idle: 3, Busy: 7, Expect: "sameid-concurrent:panic:release-not-busy", Steps: []Step{
+		// The first five are the witnesses of the repaired defect "cache entries identified by id only" (props/C15.v
+		// C15_*_idonly_refuted; provider.go before the fix C15-sameid-race); they must pass now.
+		// 1: two requests name the same uncached id, both miss before either inserts. Then: the second insert overwrote
+		// the map entry, the first's Release marked the second's holder idle (first cursor never closed), the second's
+		// Release panicked. Now: the second insert is refused, its cursor closed on the spot.
+		{Kind: "script", Name: "same-uncached-id-race", Max: 10, Idle: 3, Busy: 7, Steps: []Step{
 			{Kind: "lookup", R: 0, Id: 5, Cache: true, Q: 0, Pos: head},
 			{Kind: "lookup", R: 1, Id: 5, Cache: true, Q: 0, Pos: head},
 			{Kind: "create", R: 0}, {Kind: "create", R: 1},
 			{Kind: "release", R: 0}, {Kind: "release", R: 1}}},
-		// the same race, both requests complete normally one after the other: the idle expiry of the first cursor deletes the
-		// map entry of the second, whose holder then stays in the ring for ever: its partitions are never released
-		{Kind: "script", Name: "same-uncached-id-race-leak", Max: 10, Idle: 3, Busy: 7, Expect: "sameid-concurrent:leak-at-quiescence", Steps: []Step{
+		// the same race, both requests complete one after the other (then: the idle expiry of the first cursor deleted the
+		// map entry of the second, whose holder stayed in the ring for ever; now: the second is served by a cursor of its
+		// own under the id, the first one having been released already)
+		{Kind: "script", Name: "same-uncached-id-race-leak", Max: 10, Idle: 3, Busy: 7, Steps: []Step{
 			{Kind: "lookup", R: 0, Id: 5, Cache: true, Q: 2, Pos: head},
 			{Kind: "lookup", R: 1, Id: 5, Cache: true, Q: 2, Pos: head},
 			{Kind: "create", R: 0}, {Kind: "release", R: 0},
-			{Kind: "create", R: 1}, {Kind: "release", R: 1}}},
-		// the same race with a third request: the cursor of request 1 is handed out while request 1 still uses it
-		{Kind: "script", Name: "same-uncached-id-race-shared", Max: 10, Idle: 3, Busy: 7, Expect: "sameid-concurrent:interleaved-use", Steps: []Step{
+			{Kind: "create", R: 1}, {Kind: "release", R: 1},
+			{Kind: "tick", N: 22}, {Kind: "sweeptime"}}},
+		// the same race with a third request (then: it was handed the cursor request 1 still used)
+		{Kind: "script", Name: "same-uncached-id-race-shared", Max: 10, Idle: 3, Busy: 7, Steps: []Step{
 			{Kind: "lookup", R: 0, Id: 5, Cache: true, Q: 0, Pos: head},
 			{Kind: "lookup", R: 1, Id: 5, Cache: true, Q: 0, Pos: head},
 			{Kind: "create", R: 0}, {Kind: "create", R: 1},
 			{Kind: "release", R: 0},
-			{Kind: "lookup", R: 2, Id: 5, Cache: true, Q: 0, Pos: at(0)}}},
-		// witness 2: a request outlives busyTo, the sweeper orphans its cursor, the client retries with the same id,
-		// the late Release of the first request hits the second's holder, the second's Release panics
-		{Kind: "script", Name: "busy-expiry-rerequest-late-release", Max: 10, Idle: 3, Busy: 7, Expect: "sameid-concurrent:panic:release-not-busy", Steps: []Step{
+			{Kind: "lookup", R: 2, Id: 5, Cache: true, Q: 0, Pos: at(0)}, {Kind: "use", R: 2, N: 2}}},
+		// 2: a request outlives busyTo, the sweeper orphans its cursor, the client retries with the same id (then: the late
+		// Release of the first hit the second's holder, the second's Release panicked; now: the late Release closes its own
+		// cursor and leaves the entry alone)
+		{Kind: "script", Name: "busy-expiry-rerequest-late-release", Max: 10, Idle: 3, Busy: 7, Steps: []Step{
 			{Kind: "lookup", R: 0, Id: 5, Cache: true, Q: 0, Pos: head}, {Kind: "create", R: 0},
 			{Kind: "tick", N: 8}, {Kind: "sweeptime"},
 			{Kind: "lookup", R: 1, Id: 5, Cache: true, Q: 0, Pos: head}, {Kind: "create", R: 1},
-			{Kind: "release", R: 0}, {Kind: "release", R: 1}}},
-		// an uncached request and a cached one with the same id: the uncached cursor is never closed, the cached one is
-		// marked idle by the other's Release and closed by the sweeper while its request still uses it
-		{Kind: "script", Name: "uncached-vs-cached-same-id", Max: 10, Idle: 3, Busy: 7, Expect: "sameid-concurrent:interleaved-use", Steps: []Step{
+			{Kind: "release", R: 0}, {Kind: "use", R: 1, N: 1}, {Kind: "release", R: 1}}},
+		// an uncached request and a cached one with the same id (then: the uncached cursor was never closed, the cached one
+		// marked idle by the other's Release and closed by the sweeper under its user)
+		{Kind: "script", Name: "uncached-vs-cached-same-id", Max: 10, Idle: 3, Busy: 7, Steps: []Step{
 			{Kind: "lookup", R: 0, Id: 5, Cache: false, Q: 1, Pos: head}, {Kind: "create", R: 0},
 			{Kind: "lookup", R: 1, Id: 5, Cache: true, Q: 1, Pos: head}, {Kind: "create", R: 1},
 			{Kind: "release", R: 0}, {Kind: "tick", N: 4}, {Kind: "sweeptime"}, {Kind: "release", R: 1}}},
@@ -1103,17 +1186,28 @@ func corpus() []Replay {
 	}
 }
 
-// shutdown: Shutdown() stops the sweeper and closes nothing: a cursor idle in the cache keeps its partitions
-func shutdownWitness() Replay {
-	return Replay{Kind: "shutdown", Name: "shutdown-keeps-cached-cursors", Max: 10, Idle: 3, Busy: 7, Expect: "shutdown-cached-not-closed", Steps: []Step{
-		{Kind: "lookup", R: 0, Id: 5, Cache: true, Q: 2, Pos: head}, {Kind: "create", R: 0}, {Kind: "release", R: 0},
-		{Kind: "shutdown"}}}
+// shutdown (witness of the repaired defect "Shutdown() stops the sweeper and closes nothing", fix C15-shutdown-close):
+// a cursor idle in the cache at Shutdown is closed and its partitions released
+func shutdownWitness() []Replay {
+	return []Replay{
+		{Kind: "shutdown", Name: "shutdown-closes-cached-cursors", Max: 10, Idle: 3, Busy: 7, Steps: []Step{
+			{Kind: "lookup", R: 0, Id: 5, Cache: true, Q: 2, Pos: head}, {Kind: "create", R: 0}, {Kind: "release", R: 0},
+			{Kind: "shutdown"}}},
+		// a busy cursor at Shutdown is dropped from the cache and closed by its Release
+		{Kind: "shutdown", Name: "shutdown-busy-and-idle", Max: 10, Idle: 3, Busy: 7, Steps: []Step{
+			{Kind: "lookup", R: 0, Id: 5, Cache: true, Q: 2, Pos: head}, {Kind: "create", R: 0},
+			{Kind: "lookup", R: 1, Id: 6, Cache: true, Q: 3, Pos: head}, {Kind: "create", R: 1}, {Kind: "release", R: 1},
+			{Kind: "lookup", R: 2, Id: 7, Cache: false, Q: 4, Pos: head}, {Kind: "create", R: 2},
+			{Kind: "shutdown"}, {Kind: "use", R: 0, N: 3}, {Kind: "release", R: 0}, {Kind: "release", R: 2}}},
+	}
 }
 
 // ---------------------------------------------------------------- stress: real goroutines, oracle only
 
-func runStress(seed uint64, workers, rounds int) *Case {
-	rp := &Replay{Kind: "stress", Max: 3, Idle: 3, Busy: 7, Seed: seed}
+// With shared the workers draw from one pool of ids, so requests for one id really run concurrently: a request may be
+// refused ("concurrent request"), nothing else may go wrong.
+func runStress(seed uint64, workers, rounds int, shared bool) *Case {
+	rp := &Replay{Kind: "stress", Max: 3, Idle: 3, Busy: 7, Seed: seed, Shared: shared}
 	x := newExec(rp)
 	var wg sync.WaitGroup
 	var mu sync.Mutex
@@ -1164,8 +1258,11 @@ func runStress(seed uint64, workers, rounds int) *Case {
 				}
 			}()
 			r := NewRng(seed*131 + uint64(w))
-			// every worker owns its ids: no two requests in flight share an id
+			// every worker owns its ids: no two requests in flight share an id (unless shared)
 			ids := []uint64{uint64(10*w + 1), uint64(10*w + 2), uint64(10*w + 3)}
+			if shared {
+				ids = []uint64{1, 2, 3, 4}
+			}
 			last := map[uint64]string{}
 			for i := 0; i < rounds; i++ {
 				id := ids[r.Intn(len(ids))]
@@ -1173,6 +1270,9 @@ func runStress(seed uint64, workers, rounds int) *Case {
 				ri := &reqInfo{noGate: true}
 				ctx := context.WithValue(context.Background(), ctxKey{}, ri)
 				cur, err := x.p.GetOrCreate(ctx, cursor.State{Id: id, Query: queries[q].Text, Pos: last[id]}, r.Chance(7, 10))
+				if err != nil && shared && strings.Contains(err.Error(), "concurrent request") {
+					continue
+				}
 				if err != nil {
 					fail("stress-get-failed", err.Error())
 					return
@@ -1219,17 +1319,23 @@ func runStress(seed uint64, workers, rounds int) *Case {
 	if minus {
 		fail("partition-over-released", "stress")
 	}
-	return &Case{Coq: "KStress", Replay: rp, NonTrivial: true, Oracle: viol, Stream: "stress", Key: fmt.Sprintf("stress-%d", seed)}
+	for i, c := range x.f.closeCounts() {
+		if c != 1 {
+			fail("stress-leak-at-quiescence", fmt.Sprintf("iterator #%d closed %d times", i, c))
+			break
+		}
+	}
+	return &Case{Coq: "KStress", Replay: rp, NonTrivial: true, Oracle: viol, Stream: "stress", Key: fmt.Sprintf("stress-%d-%v", seed, shared)}
 }
 
 // ---------------------------------------------------------------- main
 
-const rule = "step histories over 1-3 concurrent requests, 1-6 ids, cache sizes 1-3 (and 10), idle/busy time-outs (3,7) (7,3) (1,5) hours, clock advances in even hours; a case is non-trivial iff a request hit a cached id, was refused, fell back after a failed ApplyState, or a sweep removed a cursor; distinct by the hash of the step list"
+const rule = "step histories over 1-3 concurrent requests, 1-6 ids, cache sizes 1-3 (and 10), idle/busy time-outs (3,7) (7,3) (1,5) hours, clock advances in even hours; a case is non-trivial iff a request hit a cached id, was refused (at the lookup or at the insert), fell back after a failed ApplyState, a sweep removed a cursor, or Shutdown found a non-empty cache; distinct by the hash of the step list"
 
 func runReplay(rp Replay) (*Case, error) {
 	switch rp.Kind {
 	case "stress":
-		return runStress(rp.Seed, 6, 300), nil
+		return runStress(rp.Seed, 6, 300, rp.Shared), nil
 	case "script", "shutdown":
 		r2 := rp
 		x := newExec(&r2)
@@ -1264,15 +1370,15 @@ func main() {
 			c.Add(*cs)
 			return c.Finish(rule)
 		}
-		// 1. the recorded witnesses and the life-cycle script always run first
-		for _, rp := range append(corpus(), shutdownWitness()) {
+		// 1. the witnesses of the repaired defects (they must pass now), the life-cycle script and the shutdown scripts always run first
+		for _, rp := range append(corpus(), shutdownWitness()...) {
 			cs, err := runReplay(rp)
 			if err != nil {
 				return err
 			}
 			c.Add(*cs)
 		}
-		// 2. disciplined histories (any oracle violation here is a VIOLATION), 3. malformed-heavy, 4. races
+		// 2. disciplined histories, 3. malformed-heavy, 4. races (requests sharing ids in flight); any oracle violation is a VIOLATION
 		type job struct {
 			g      genCfg
 			stream string
@@ -1318,7 +1424,7 @@ func main() {
 		}
 		// 5. stress runs with real goroutines (oracle only)
 		for i := 0; i < c.N(6); i++ {
-			c.Add(*runStress(c.Rng.U64(), 6, 300))
+			c.Add(*runStress(c.Rng.U64(), 6, 300, i%2 == 1))
 		}
 		return c.Finish(rule)
 	})
